@@ -68,5 +68,13 @@ let () =
              let k = if kind = "model" then TagGen.AkModel else TagGen.AkNormal in
              snd (TagGen.normal_attr_dynamic [] lit_str k (dec_str name) e b (Some keys) st0)) in
         let body = Str.join [n_of_int 59] stmts in
-        enc_str body ^ "|" ^ enc_str (TagGen.bmc_init lit_str b)
+        (* the parts, so that a difference can be attributed to the right property:
+           hoisted statements + value (C03), guard (C06), l-value path (C11) *)
+        let ((st1, v), r) = ExprGen.prepare [] lit_str e st0 in
+        let hoisted = Str.join [n_of_int 59] st1.ExprGen.stmts in
+        let guard = ExprGen.guard_str [] false lit_str r in
+        let lv = (match kind with
+                  | "text" -> []
+                  | _ -> TagGen.normal_attr_lvalue [] lit_str (if kind = "model" then TagGen.AkModel else TagGen.AkNormal) (dec_str name) r) in
+        enc_str body ^ "|" ^ enc_str (TagGen.bmc_init lit_str b) ^ "|" ^ enc_str hoisted ^ "|" ^ enc_str v ^ "|" ^ enc_str guard ^ "|" ^ enc_str lv
     | _ -> "ERR args")
